@@ -159,7 +159,8 @@ def main():
             for i in range(nentries):
                 e = row_lin(tbl[i])
                 if not z3.is_true(z3.simplify(z3.And([e.coeff(k) == b0.coeff(k) * (i + 1) for k in set(e.c) | set(b0.c)]))):
-                    raise X.Unsupported("table invariant not established at %s" % name)
+                    ctx.check(False, 'lookup-table-holds-(i+1)*P-at-%s' % name)
+                    break
             idx = a[2]
             if isinstance(idx, tm.T) and idx.ub > nentries:
                 ctx.check(tm.ule(idx, nentries, 64), 'bv:lookup-index-in-range')
